@@ -2,6 +2,7 @@ package main
 
 import (
 	"fmt"
+	"math"
 	"math/big"
 	"strings"
 )
@@ -653,7 +654,7 @@ func smtHeader(intMode bool, extra []string) string {
 		idx = "Int"
 	}
 	var b strings.Builder
-	b.WriteString("(declare-sort F64 0)\n")
+	b.WriteString("(define-sort F64 () (_ FloatingPoint 11 53))\n")
 	b.WriteString("(declare-datatypes ((Addr 0)) (((nil) (obj (oid Int)) (glob (gid Int)) (fld (fbase Addr) (fid Int)) (elem (ebase Addr) (eidx " + idx + ")))))\n")
 	b.WriteString("(define-fun base1 ((a Addr)) Addr (ite ((_ is fld) a) (fbase a) (ite ((_ is elem) a) (ebase a) a)))\n")
 	b.WriteString("(define-fun root ((a Addr)) Addr (base1 (base1 (base1 (base1 (base1 (base1 (base1 (base1 a)))))))))\n")
@@ -663,4 +664,60 @@ func smtHeader(intMode bool, extra []string) string {
 		b.WriteString("\n")
 	}
 	return b.String()
+}
+
+// ---------- float64: IEEE-754 binary64 through the SMT FloatingPoint theory ----------
+
+// f64Lit: exact literal from the bit pattern.
+func f64Lit(f float64) string {
+	bits := math.Float64bits(f)
+	return fmt.Sprintf("(fp #b%01b #b%011b #x%013x)", bits>>63, (bits>>52)&0x7ff, bits&((1<<52)-1))
+}
+
+func f64Bin(op string, a, b string) string {
+	switch op {
+	case "+":
+		return "(fp.add RNE " + a + " " + b + ")"
+	case "-":
+		return "(fp.sub RNE " + a + " " + b + ")"
+	case "*":
+		return "(fp.mul RNE " + a + " " + b + ")"
+	case "/":
+		return "(fp.div RNE " + a + " " + b + ")"
+	case "<":
+		return "(fp.lt " + a + " " + b + ")"
+	case "<=":
+		return "(fp.leq " + a + " " + b + ")"
+	case ">":
+		return "(fp.gt " + a + " " + b + ")"
+	case ">=":
+		return "(fp.geq " + a + " " + b + ")"
+	case "==":
+		return "(fp.eq " + a + " " + b + ")"
+	case "!=":
+		return "(not (fp.eq " + a + " " + b + "))"
+	}
+	return ""
+}
+
+// f64FromInt / f64ToInt: conversions in the bit-vector encoding (Go truncates towards zero).
+// In the Int encoding there is no exact bridge: callers fall back to an unconstrained value.
+func (a Arith) f64FromInt(t IntT, x string) (string, bool) {
+	if a.intMode {
+		return "", false
+	}
+	if t.Signed {
+		return "((_ to_fp 11 53) RNE " + x + ")", true
+	}
+	return "((_ to_fp_unsigned 11 53) RNE " + x + ")", true
+}
+
+func (a Arith) f64ToInt(t IntT, x string) (string, bool) {
+	if a.intMode {
+		return "", false
+	}
+	if t.Signed {
+		return fmt.Sprintf("((_ fp.to_sbv %d) RTZ %s)", t.Bits, x), true
+	}
+	return fmt.Sprintf("((_ fp.to_ubv %d) RTZ %s)", t.Bits, x), true
 }
